@@ -276,6 +276,7 @@ func Run(sc *Scenario, frameCheck func(dir int, f *wire.Frame) string) Result {
 		obs[dir].delayMs[d.Key] = d.Ms
 	}
 	var burstLeft [2]int
+	probing := sc.PassiveISS != nil // guarded by omu (held in decide)
 	faultRng := [2]*fw.Rand{rng.Split("faults", 0), rng.Split("faults", 1)}
 	writerRng := [2]*fw.Rand{rng.Split("writer", 0), rng.Split("writer", 1)}
 	mkDecide := func(dir int) func(f *wire.Frame) wire.Action {
@@ -354,6 +355,12 @@ func Run(sc *Scenario, frameCheck func(dir int, f *wire.Frame) string) Result {
 				if s0 < 1<<31 && s1 >= 1<<31 && s1 > s0 {
 					o.st.WrapCross31 = true
 				}
+			}
+			if probing {
+				// the ISS probe connection is scaffolding, not part of the scenario: no
+				// faults, so that none of its segments is still in flight (delayed or
+				// replayed) when the judged connection reuses the 4-tuple
+				return a
 			}
 			if left := o.dropLeft[key]; left > 0 {
 				o.dropLeft[key] = left - 1
@@ -564,6 +571,9 @@ func Run(sc *Scenario, frameCheck func(dir int, f *wire.Frame) string) Result {
 		pa.e.Close()
 		pb.e.Close()
 		time.Sleep(5 * time.Second) // let the probe connection finish closing (same time-stamp bucket: 64 s)
+		omu.Lock()
+		probing = false
+		omu.Unlock()
 		resMu.Lock()
 		res.Hs.SynAckEmitted, res.Hs.SynAckDropped, res.Hs.SynAckDelivered, res.Hs.ClientEmitted, res.Hs.ClientDropped, res.Hs.ClientDelivered, res.Hs.SynAckUnanswered = 0, 0, 0, 0, 0, 0, false
 		resMu.Unlock()
